@@ -398,7 +398,17 @@ func (c *ServerConn) Stop() error {
 		returnErr = err
 	}
 
-	if c.receiveBoxCreated {
+	// The two flags are set, under the stream mutexes, by the goroutines
+	// that receive and send for the gbn connection.
+	c.receiveStreamMu.Lock()
+	receiveBoxCreated := c.receiveBoxCreated
+	c.receiveStreamMu.Unlock()
+
+	c.sendStreamMu.Lock()
+	sendBoxCreated := c.sendBoxCreated
+	c.sendStreamMu.Unlock()
+
+	if receiveBoxCreated {
 		err := delCipherBox(c.ctx, c.client, c.receiveSID)
 		if err != nil {
 			c.log.Errorf("Error removing receive cipher box: %v",
@@ -407,7 +417,7 @@ func (c *ServerConn) Stop() error {
 			returnErr = err
 		}
 	}
-	if c.sendBoxCreated {
+	if sendBoxCreated {
 		if err := delCipherBox(c.ctx, c.client, c.sendSID); err != nil {
 			c.log.Errorf("Error removing send cipher box: %v", err)
 			returnErr = err
